@@ -56,6 +56,7 @@ def render(state, variant, hand_number, players=None):
     dealt = [['', ''] for _ in range(n)]          # what each seat was dealt
     shown = [['', ''] for _ in range(n)]          # what was tabled so far
     views = {p: [] for p in range(n)}
+    nboard = 0
 
     def matchstate(p):
         hv = [list(shown[i]) for i in range(n)]
@@ -83,8 +84,14 @@ def render(state, variant, hand_number, players=None):
                         holes[op.player_index][j] = repr(c)
                     got.append(c)
         elif k == 'BoardDealing':
-            actions += '/'
-            board += '/' + ''.join(map(repr, op.cards))
+            # hold'em: flop (3 cards), turn, river; a street dealt in
+            # several chunks is still one street
+            for c in op.cards:
+                if nboard in (0, 3, 4):
+                    actions += '/'
+                    board += '/'
+                board += repr(c)
+                nboard += 1
         elif k == 'HoleCardsShowingOrMucking':
             for j, c in enumerate(op.hole_cards[:2]):
                 if c:
@@ -217,8 +224,10 @@ def check_case(res, rng):
             return
         if list(final.stacks) != list(s.stacks):
             res.counters['replay_differs_from_original'] += 1
-            return     # C16's business
-        actions, line, views = render(final, variant, hand_number, names)
+        # the expected protocol text is rendered from the hand that was
+        # PLAYED (not from the library's own replay of its history, which
+        # goes through the code under test)
+        actions, line, views = render(s, variant, hand_number, names)
         if s.all_in_status:
             res.counters['allin_hands'] += 1
         if sum(s.statuses) > 1 or any(
